@@ -80,6 +80,16 @@ def run(c):
     n, k = (8, 40) if c.tier == 'quick' else (60, 150)
     rt.replay_witnesses(c, oracle)
     cases, dis, stats = rt.run_rt(c, oracle, n, k, gen_hist=rt.flushing(hrt.gen_history), known_classifier=rt.known_by(c, [('F9', rt.f9_territory)]))
+    cases_b, dis_b, stats_b = rt.run_rt(c, oracle, max(3, n // 2), k, gen_hist=rt.flushing(hrt.gen_history),
+                                        known_classifier=rt.known_by(c, [('F9', rt.f9_territory)]),
+                                        label='H-runtime (bit-packed)', profile='rt-bits', seed_base=300)
+    # packets that one record fills alone, in layouts with several record types of mixed sizes: the size of a record
+    # depends on the offset it is written at, and after a packet switch it is the size at the new offset that counts
+    cases_a, dis_a, stats_a = rt.run_rt(c, oracle, n + n // 2, k + 20, gen_hist=rt.flushing(hrt.gen_history),
+                                        hist_kwargs={'alone_p': 0.85, 'mono_p': 0.05},
+                                        known_classifier=rt.known_by(c, [('F9', rt.f9_territory)]),
+                                        label='H-runtime (one record fills the packet)', profile='layout', seed_base=600)
+    dis = dis + dis_b + dis_a
     rt.decide(c, ob, dis, oracle=oracle, known_classifier=rt.known_by(c, [('F9', rt.f9_territory)]))
     if c.tier == 'thorough' and ob['ok']:
         ok, log = c.leanchecker(['BVM.Props.C03'])
